@@ -101,7 +101,7 @@ def build_binary(ctx, variant, name):
     for src in inst:
         obj = os.path.join(bdir, sub + "_" + os.path.basename(src)[:-4] + ".o")
         objs.append(obj)
-        jobs.append((src, cc + ["-std=c++20"] + VARIANTS[variant] + ["-fsanitize=thread", "-DSMOOTH_VERIF_SIM"] + inc +
+        jobs.append((src, cc + ["-std=c++20"] + VARIANTS[variant] + ["-fsanitize=thread", "-Wno-tsan", "-DSMOOTH_VERIF_SIM"] + inc +
                      ["-c", src, "-o", obj]))
     for src in plain:
         obj = os.path.join(bdir, sub + "_" + os.path.basename(src)[:-4] + ".o")
